@@ -791,8 +791,29 @@ func (x *Exec) specCall(env *SpecEnv, c ECall) SpecVal {
 	case "held":
 		m := x.specTerm(env, c.Args[0])
 		return SpecVal{T: Select(x.heapGet(env.st, "$held", SArr(SInt, SBool)), m)}
+	case "unmodified":
+		// unmodified(entries...): none of the named locations / arrays changed since old
+		var cs []Term
+		for _, a := range c.Args {
+			for _, t := range x.resolveModEntry(env.withState(env.old), a) {
+				cur := x.heapGet(env.st, t.arr, t.sort)
+				old := x.heapGet(env.old, t.arr, t.sort)
+				if t.loc == nil {
+					cs = append(cs, Eq(cur, old))
+				} else {
+					cs = append(cs, Eq(Select(cur, *t.loc), Select(old, *t.loc)))
+				}
+			}
+		}
+		return SpecVal{T: And(cs...)}
+	case "done":
+		c := x.specTerm(env, c.Args[0])
+		return SpecVal{T: x.doneNow(env.st, c)}
 	case "fresh":
 		v := x.specTerm(env, c.Args[0])
+		if env.cfg != nil && len(env.cfg.frames) > 0 && env.fn == x.fn {
+			return SpecVal{T: Gt(v, x.d.Const("H0!$top", SInt))}
+		}
 		return SpecVal{T: Gt(v, x.top(env.old))}
 	case "allocated":
 		v := x.specTerm(env, c.Args[0])
@@ -992,6 +1013,37 @@ func (x *Exec) applyContract(cfg *Config, f *Frame, fn *ssa.Function, c *FuncCon
 		forks = append(forks, pcfg)
 		cfg.st.assume(Not(cond))
 	}
+	// a callee that may park on a condition variable states its contract
+	// relative to the start of its last atomic section: either it did not
+	// park (old = state at the call) or it did (old = an arbitrary state in
+	// which other goroutines have run; the caller's section restarts there).
+	if c.Options["waits"] == "true" {
+		parked := cfg.clone()
+		pf := parked.top()
+		x.havocModifies(parked, env.withCfg(parked), c)
+		x.interfere(parked)
+		if x.c != nil && x.c.Options["old"] == "section" {
+			parked.old = parked.st.clone()
+		}
+		more, _ := x.applyContractTail(parked, pf, fn, c, args, binds, dest, isDefer, parked.st.clone())
+		forks = append(forks, parked)
+		forks = append(forks, more...)
+	}
+	more, end := x.applyContractTail(cfg, f, fn, c, args, binds, dest, isDefer, oldSt)
+	return append(forks, more...), end
+}
+
+func (e *SpecEnv) withCfg(cfg *Config) *SpecEnv {
+	n := *e
+	n.cfg = cfg
+	n.st = cfg.st
+	return &n
+}
+
+func (x *Exec) applyContractTail(cfg *Config, f *Frame, fn *ssa.Function, c *FuncContract, args []Val, binds []Val, dest ssa.Value, isDefer bool, oldSt *State) ([]*Config, bool) {
+	env := x.calleeEnv(cfg, fn, c, args, binds)
+	env.old = oldSt
+	var forks []*Config
 	// havoc
 	x.havocModifies(cfg, env, c)
 	// results
@@ -1253,6 +1305,12 @@ func (x *Exec) exitChecks(cfg *Config, f *Frame, res []Val) {
 	}
 	env.st = cfg.st
 	for _, e := range x.c.Ensures {
+		if e.Name == "" {
+			if call, ok := e.E.(ECall); ok && x.findPred(env, call.Fn) != nil {
+				x.obligeInv(cfg, env, e.E, "post", "", x.clauseProps(e, nil), f.block.Instrs[f.idx].Pos(), 0)
+				continue
+			}
+		}
 		t := x.specBool(env, e.E)
 		x.oblige(cfg, "post", x.clauseLabel(e), t, x.clauseProps(e, nil), f.block.Instrs[f.idx].Pos())
 	}
@@ -1332,7 +1390,7 @@ func (x *Exec) frameChecks(cfg *Config, env *SpecEnv) {
 	for _, t := range targets {
 		byArr[t.arr] = append(byArr[t.arr], t)
 	}
-	top0 := x.top(cfg.old)
+	top0 := x.d.Const("H0!$top", SInt) // objects allocated by this invocation may change freely
 	for _, name := range sortedKeys(cfg.st.heap) {
 		if strings.HasPrefix(name, "$") {
 			continue
